@@ -18,7 +18,7 @@ pub static DEF: PropertyDef = PropertyDef {
            run is compared in lockstep with the uninjected history: full observation after the call and after every later op, plus observer/external/handler/line events. \
            Non-trivial = the call was actually rejected and at least one later non-noop op was compared; distinct = hash of program+history.",
     assumptions: &["load_state is excluded from the invalid calls (a failed load is C15's subject)"],
-    runs_quick: 700,
+    runs_quick: 2400,
     runs_thorough: 40000,
     exhaustive_note: "all invalid-call kinds x all distinct boundaries of each sampled history",
     generate,
